@@ -167,6 +167,7 @@ CoreLib(w) ==
      \/ \E l \in L : SpinAcq(w, l) \/ SpinRel(w, l)
      \/ \E c \in D, l \in L, f \in {0, 1} : DescAlloc(w, w, c, l, f)
      \/ \E s \in S, k \in {0, 1} : StackAlloc(w, w, s, 2 * s, 2 * s + 1, k, 0)
+     \/ \E c \in D : MkCtx(w, c, 0, 1)
      \/ \E p, c \in D, s \in S : CreateCF(w, p, c, s, 0, 0)
      \/ \E pt, ct \in Tag : UCreateRet(w, pt, ct) \/ UJoinRet(w, pt, ct, tg[ct].endv, tg[ct].cell)
      \/ \E k \in {1, 2, 3, 4, 5, 6, 8, 9, 10} : CbEnter(w, k, 0)
